@@ -114,7 +114,7 @@ func (x *Exec) instr(fr *Frame, st *State, in ssa.Instruction) {
 		c := x.term(fr, st, x.value(fr, st, i.Cap))
 		g := fmt.Sprintf("(and (<= 0 %s) (<= %s %s))", l, l, c)
 		if fr.nopanic {
-			vc.oblige(fmt.Sprintf("%s/makeslice#%d", fr.unit, fr.nextOrd("makeslice")), "slice", fr.unit, x.pos(i.Pos()), "make: len in range", st.pc, g)
+			vc.oblige(fmt.Sprintf("%s/makeslice%s", fr.unit, x.ordTag(fr, "makeslice", i.Pos())), "slice", fr.unit, x.pos(i.Pos()), "make: len in range", st.pc, g)
 		} else {
 			vc.assume(st.pc, g)
 		}
@@ -347,7 +347,7 @@ func (x *Exec) binop(fr *Frame, st *State, op token.Token, a, b string, ta, tb, 
 		case token.QUO, token.REM:
 			g := fmt.Sprintf("(not (= %s 0))", b)
 			if fr != nil && fr.nopanic {
-				vc.oblige(fmt.Sprintf("%s/div#%d", fr.unit, fr.nextOrd("div")), "div", fr.unit, x.pos(pos), "division by zero", st.pc, g)
+				vc.oblige(fmt.Sprintf("%s/div%s", fr.unit, x.ordTag(fr, "div", pos)), "div", fr.unit, x.pos(pos), "division by zero", st.pc, g)
 			} else if st != nil {
 				vc.assume(st.pc, g)
 			}
@@ -573,7 +573,7 @@ func (x *Exec) typeAssert(fr *Frame, st *State, i *ssa.TypeAssert) {
 		return
 	}
 	if fr.nopanic {
-		vc.oblige(fmt.Sprintf("%s/type-assert#%d", fr.unit, fr.nextOrd("ta")), "type-assert", fr.unit, x.pos(i.Pos()), "type assertion to "+typeKey(i.AssertedType), st.pc, ok)
+		vc.oblige(fmt.Sprintf("%s/type-assert%s", fr.unit, x.ordTag(fr, "ta", i.Pos())), "type-assert", fr.unit, x.pos(i.Pos()), "type assertion to "+typeKey(i.AssertedType), st.pc, ok)
 	} else {
 		fr.nextOrd("ta")
 		vc.assume(st.pc, ok)
@@ -658,7 +658,7 @@ func (x *Exec) sliceOp(fr *Frame, st *State, i *ssa.Slice) {
 
 func (x *Exec) sliceCheck(fr *Frame, st *State, g string, pos token.Pos) {
 	if fr.nopanic {
-		x.vc.oblige(fmt.Sprintf("%s/slice#%d", fr.unit, fr.nextOrd("slice")), "slice", fr.unit, x.pos(pos), "slice bounds", st.pc, g)
+		x.vc.oblige(fmt.Sprintf("%s/slice%s", fr.unit, x.ordTag(fr, "slice", pos)), "slice", fr.unit, x.pos(pos), "slice bounds", st.pc, g)
 	} else {
 		fr.nextOrd("slice")
 		x.vc.assume(st.pc, g)
